@@ -27,7 +27,9 @@ CHECKS = {
                 ref="DESIGN.md §4 C18"),
     "C16": dict(tech="SMT-backed symbolic execution (CrossHair+z3) of the export path-map / leaf-node / zip-attribution kernels, direct z3 regex-inclusion queries on the live schema regexes, and real-file-system round trips with symbolic configuration",
                 text="Bounded proof: leaf/node check raises iff one of <=3 paths (<=3 segments over {a,b,ab}) is a component-wise ancestor of another, for every order; _export_jobs either raises before the first copy or yields an injective, prefix-free path map "
-                     "for 2-3 jobs over a textually colliding value domain and 7 path specifications; zip import attributes every member to the job whose root contains it component-wise and writes nothing outside job directories.",
+                     "for 2-3 jobs over a textually colliding value domain and 7 path specifications; zip import attributes every member to the job whose root contains it component-wise and writes nothing outside job directories; "
+                     "importing an export of any two jobs over a in {1, 10, 1.0, '1', True, False} with a typed schema string or a re-labelling callable yields exact copies that pass check() or raises with nothing copied; "
+                     "directories that a schema maps to one job are rejected, never merged.",
                 note="Trusted: CrossHair path enumeration; stub ZipFile / recording copytree. Outside: compression codecs, >3 jobs in kernels.",
                 ref="DESIGN.md §4 C16"),
     "C03": dict(tech="SMT-backed symbolic execution (CrossHair+z3) of the real Project/Job API on an in-memory POSIX model with symbolic pre-state/operations; direct z3 regex query on the live JOB_ID_REGEX",
@@ -54,7 +56,7 @@ CHECKS = {
                 ref="DESIGN.md §4 C10"),
     "C11": dict(tech="SMT-backed symbolic execution (CrossHair+z3): the crash / failing step index is an unbounded symbolic int compared at every file-system step of the real lifecycle code running on an in-memory POSIX model",
                 text="Bounded proof: in 14 lifecycle scenarios (init x4, re-key x4, move x2, clone, remove, clear, reset), both directory-listing orders, for a crash before ANY step, torn writes, and any step failing with EIO/ENOSPC/EACCES/EXDEV/EROFS "
-                     "(thorough: two failing steps): bystander jobs byte-identical, payload under exactly one id directory, check() names exactly the non-validating directories, nothing validates with a foreign state point, "
+                     "(thorough: two failing steps), and for a directory region (job directory, destination, a whole workspace) that is denied from ANY step on (EACCES/EIO; isfile/isdir/exists answer False there): bystander jobs byte-identical, payload under exactly one id directory, check() names exactly the non-validating directories, nothing validates with a foreign state point, "
                      "and a handled error either propagates leaving pre-state / success-state / check()-detectable state or the call's result equals a fault-free run.",
                 note="Trusted: MemFS model incl. shutil.copytree/rmtree expansions (validated against tmpfs on every run; counterexamples replayed on the real FS). Outside: ENOENT faults, power loss, h5py.",
                 ref="DESIGN.md §4 C11"),
@@ -82,14 +84,14 @@ CHECKS = {
                 note="Trusted: MemFS atomic steps; actors are coroutine threads sharing only MemFS (per-actor lock table / temp names). Outside: >3 actors, same-document writers, schedules beyond the pre-emption bound, reading state points of jobs that are concurrently being created.",
                 ref="DESIGN.md §4 C12"),
     "C13": dict(tech="SMT-backed symbolic execution (CrossHair+z3) over the configuration space of real Project.sync / Job.sync calls on the real file system (per-path scratch projects), post-conditions on byte snapshots",
-                text="Bounded proof: for every project pair over 2 state points (all presence combinations), file states of a top-level and a nested file (absent/one-sided/identical/different, mtime relation), a common sub-directory, 7 job-document and 3 project-document states, "
+                text="Bounded proof: for every project pair over 2 state points (all presence combinations), file states of a top-level and a nested file (named f, sub/g; also names on filecmp's ignore list and names with braces) (absent/one-sided/identical/different, mtime relation), a common sub-directory, 7 job-document and 3 project-document states, "
                      "crossed with strategy x recursive x exclude x entry point (file family) and doc_sync x entry point (document family): whenever the sync returns, every selected source job is in the destination with the same state point, every non-excluded source-only file is copied byte-identically, "
                      "destination-only files and document keys are unchanged, the source is byte-identical, no backup files remain, and a second identical sync changes nothing.",
                 note="Trusted: tmpfs semantics; CrossHair path enumeration over the configuration integers (the sync code runs natively per path). Outside: symlink/permission options, Ask, >2 jobs.",
                 ref="DESIGN.md §4 C13"),
     "C15": dict(tech="SMT-backed symbolic execution (CrossHair+z3) over the configuration space of real sync calls on the real file system with a twin real run per path",
                 text="Bounded proof: dry_run=True through Project.sync / Job.sync / sync_projects / sync_jobs leaves both trees byte- and mtime-identical and ends in the same outcome class (returns / FileSyncConflict / DocumentSyncConflict) as a real run on an identical pair, for pairs where files would be copied, jobs cloned and flat/nested documents merged; "
-                     "deep=True detects (and, with 'always', overwrites) differing files of equal size and mtime at top level and nested, at job and project level; excluded file names and unselected jobs are never created or modified; parallel in {2, True} yields the sequential tree.",
+                     "deep=True detects (and, with 'always', overwrites) differing files of equal size and mtime at top level and nested, at job and project level; a dry run with symbolic links in the source and follow_symlinks / preserve_permissions / preserve_times in any combination changes neither content, link targets, permission bits nor mtimes; excluded file names and unselected jobs are never created or modified; parallel in {2, True} yields the sequential tree.",
                 note="Trusted: tmpfs semantics. Outside: pool-internal thread interleavings, directory-name exclude patterns.",
                 ref="DESIGN.md §4 C15"),
     "C17": dict(tech="SMT-backed symbolic execution (CrossHair+z3) over (workspace before, workspace after, selection, path spec) with the real create_linked_view on the real file system",
